@@ -6,7 +6,8 @@ Model of rule responses and their accounting (C12):
                                rule.process (322-336), PluginType.invoke (59-70)
   insights/core/dr.py          get_missing_dependencies (780-787), stringify_requirements (588-596),
                                the guard and the `except` ladder of run_components (1064-1097) as far as rules are concerned
-  insights/core/evaluators.py  Evaluator.observer (35-48), SingleEvaluator.append_metadata / get_response / handle_result (87-144)
+  insights/core/evaluators.py  Evaluator.observer with the `_handled` set (34-52), SingleEvaluator.append_metadata / get_response /
+                               handle_result (91-148)
   insights/formats/__init__.py EvaluatorFormatterAdapter.__init__ (98-113), get_response_of_types (188-220)
   insights/formats/_json.py    JsonFormat.handle_result (16-40: the same classification), postprocess
 
@@ -295,11 +296,12 @@ structure St where
   excs : List (Comp × Exc)              -- broker.exceptions, in recording order
   mdFrom : List Comp                    -- ghost: rules whose metadata response was merged
   mdkFrom : List Comp                   -- ghost: rules whose metadata_key was stored
+  handled : List Comp                   -- Evaluator._handled: the rules the observer has dealt with
 deriving Repr
 
 def St.present (st : St) : List Comp := st.inst.map (·.1)
 
-def St.init (seed : List Comp) : St := ⟨seed.map (·, none), [], [], [], [], [], [], []⟩
+def St.init (seed : List Comp) : St := ⟨seed.map (·, none), [], [], [], [], [], [], [], []⟩
 
 def sNone : Str := "None".toList
 
@@ -347,11 +349,19 @@ def handle (st : St) (r : Rule) (resp : Resp) : St :=
     else { st with results := appendAt t (mkEntry r t resp) st.results }
   | _ => st                              -- no "type": KeyError in the observer
 
-/-- `Evaluator.observer`: `if is_rule(comp) and comp in broker: handle_result(comp, broker[comp])` -/
+/-- what the observer does with a value it has not dealt with before: `self._handled.add(comp)`, then
+`handle_result(comp, broker[comp])` (which raises inside the observer when the value is not a response) -/
+def observeNew (st : St) (r : Rule) (v : Option Resp) : St :=
+  match v with
+  | some resp => handle { st with handled := st.handled ++ [r.id] } r resp
+  | none => { st with handled := st.handled ++ [r.id] }
+
+/-- `Evaluator.observer`: `if is_rule(comp) and comp in broker and comp not in self._handled: …` — observers fire
+for every component of every run on the broker, so a rule already dealt with is left alone -/
 def observe (st : St) (r : Rule) : St :=
   match lookup' r.id st.inst with
-  | some (some resp) => handle st r resp
-  | _ => st
+  | some v => if st.handled.contains r.id then st else observeNew st r v
+  | none => st
 where
   lookup' (c : Comp) : List (Comp × Option Resp) → Option (Option Resp)
     | [] => none
@@ -381,7 +391,8 @@ def run (env : Env) (seed : List Comp) (rules : List Rule) : St :=
 `Formatter.__enter__` = `preprocess()` = `broker.add_observer(self.observer)`; `broker.observers[type]` is a SET of
 callables and a bound method equals itself, so registering again changes nothing.  `dr.run` fires the observers
 for EVERY component of the run order — also for components that are only mentioned as dependencies (not keys of
-the graph) and for components that are already in the broker; such components are not processed again. -/
+the graph) and for components that are already in the broker; such components are not processed again, and the evaluator's
+observer leaves alone what it has dealt with before (`Evaluator._handled`, `St.handled`). -/
 
 abbrev ObsId := Nat
 
